@@ -836,10 +836,26 @@ def bio_new(vm, args, kw):
 def bio_write(vm, o, args, kw):
     data = args[0]
     total = SBytes(o.atoms).length()
-    if not vm.entails(zint(o.pos) == zint(total)):
-        raise Unsupported('BytesIO write not at end')
-    o.atoms.extend(atoms_of(data))
     ln = SBytes(atoms_of(data)).length()
+    if vm.entails(zint(o.pos) == zint(total)):
+        o.atoms.extend(atoms_of(data))
+    else:
+        # overwrite / write past a position inside the buffer: head + data + tail (zero fill when beyond the end)
+        if vm.truth(mk_bool(zint(o.pos) > zint(total))):
+            gap = mk_int(zint(o.pos) - zint(total))
+            if is_sym(gap):
+                raise Unsupported('BytesIO write beyond the end at a symbolic distance')
+            o.atoms.extend([0] * gap)
+            o.atoms.extend(atoms_of(data))
+        else:
+            whole = mk_bytes(o.atoms)
+            head = sbytes_getitem(vm, whole, slice(0, o.pos, None)) if isinstance(whole, SBytes) else whole[:o.pos]
+            end = mk_int(zint(o.pos) + zint(ln))
+            if vm.truth(mk_bool(zint(end) >= zint(total))):
+                tail = b''
+            else:
+                tail = sbytes_getitem(vm, whole, slice(end, None, None)) if isinstance(whole, SBytes) else whole[end:]
+            o.atoms = list(atoms_of(head)) + list(atoms_of(data)) + list(atoms_of(tail))
     o.pos = mk_int(zint(o.pos) + zint(ln))
     return ln
 
@@ -872,10 +888,36 @@ def bio_getvalue(vm, o, args, kw):
 
 
 def bio_seek(vm, o, args, kw):
-    if len(args) > 1 and args[1] != 0:
-        raise Unsupported('seek whence')
-    o.pos = args[0]
-    return args[0]
+    whence = args[1] if len(args) > 1 else 0
+    if whence == 0:
+        o.pos = args[0]
+    elif whence == 2:
+        o.pos = mk_int(zint(SBytes(o.atoms).length() if o.atoms else 0) + zint(args[0]))
+    elif whence == 1:
+        o.pos = mk_int(zint(o.pos) + zint(args[0]))
+    else:
+        raise ValueError('invalid whence')
+    return o.pos
+
+
+def bio_truncate(vm, o, args, kw):
+    pos = args[0] if args and args[0] is not None else o.pos
+    whole = mk_bytes(o.atoms)
+    cut = sbytes_getitem(vm, whole, slice(0, pos, None)) if isinstance(whole, SBytes) else whole[:pos]
+    o.atoms = list(atoms_of(cut))
+    return pos
+
+
+def bio_getbuffer(vm, o, args, kw):
+    return mk_bytes(o.atoms)
+
+
+def bio_flush(vm, o, args, kw):
+    return None
+
+
+def bio_close(vm, o, args, kw):
+    o.closed = True
 
 
 def bio_tell(vm, o, args, kw):
@@ -1066,7 +1108,8 @@ def install(vm):
     vm._keepalive.append(bytes.fromhex)
     MM[(int, 'to_bytes')] = im_to_bytes
     for name, model in [('write', bio_write), ('writelines', bio_writelines), ('read', bio_read),
-                        ('getvalue', bio_getvalue), ('seek', bio_seek), ('tell', bio_tell)]:
+                        ('getvalue', bio_getvalue), ('seek', bio_seek), ('tell', bio_tell), ('truncate', bio_truncate),
+                        ('getbuffer', bio_getbuffer), ('flush', bio_flush), ('close', bio_close)]:
         MM[(SymBytesIO, name)] = model
     MM[(struct.Struct, 'pack')] = sm_pack
     MM[(struct.Struct, 'unpack')] = sm_unpack
